@@ -70,6 +70,12 @@ func (s *Slice) Apply(inputs []tensor.Tensor) ([]tensor.Tensor, error) {
 		}
 	}
 
+	for i := range starts {
+		if starts[i] >= ends[i] {
+			return nil, ops.ErrInvalidInput("empty slices are not supported", s)
+		}
+	}
+
 	slices := s.constructSlices(starts, ends, steps, axes, rank)
 
 	out, err := data.Slice(slices...)
